@@ -69,7 +69,15 @@ def run(ctx: core.Ctx):
     import htstabilizer.f2_algebra as f2
     for f in (f2.mat_mul, f2.add, f2.rref, f2.rank, f2.null_space, f2.rref_and_basis_change, f2.trf_swap_rows, f2.trf_add_row):
         ctx.under_contract(f)
-    selftest_interpreter(ctx)
+    symrun.purity(ctx, (f2.mat_mul, f2.add, f2.rref, f2.rank, f2.null_space, f2.rref_and_basis_change, f2.trf_swap_rows, f2.trf_add_row), "C18.frame.no_module_state")
+    try:
+        selftest_interpreter(ctx)
+    except core.CheckerError:
+        raise
+    except Exception as e:
+        if not ctx.violations:
+            raise
+        ctx.selfcheck["interpreter_vs_cpython_concrete_runs"] = f"skipped: interpreter could not run the modified code ({type(e).__name__}: {e})"
     q = ctx.quick
     tasks = []
     # ---- mat_mul / add
@@ -124,26 +132,47 @@ def bounded(ctx):
     fam = ctx.family("C18.bounded.random_large_shapes", BOUNDED, "native", "rref/null_space/rank vs independent elimination on random matrices up to 40x30")
     fam.exhaustive = False
     n_runs = 60 if ctx.quick else 600
+
+    def contract_ok(A):
+        A0 = A.copy()
+        m, n = A.shape
+        try:
+            Bm, piv = f2.rref(A)
+            K = f2.null_space(A)
+            r = f2.rank(A)
+            ok = isinstance(Bm, np.ndarray) and Bm.shape == (m, n) and bool(C.L.B(C.L.rref_form(Bm, list(piv)))) and C.native_same_kernel(A0, Bm) and r == len(piv) and np.array_equal(A, A0)
+            ok = ok and isinstance(K, np.ndarray) and K.ndim == 2 and K.shape == (n - r, n) and not ((A0.astype(np.int64) @ K.T.astype(np.int64)) % 2).any()
+            ok = ok and (K.shape[0] == 0 or len(C._rowspace_key(K.astype(np.int64))) == n - r)
+        except Exception:
+            ok = False
+        return ok
+
     for t in range(n_runs):
         m, n = int(rng.integers(1, 41)), int(rng.integers(1, 31))
         dens = rng.choice([0.1, 0.5, 0.9])
         A = (rng.random((m, n)) < dens).astype(np.int8)
         if t % 7 == 0 and m >= n:
             A[:n, :n] = np.eye(n, dtype=np.int8)          # full column rank
-        A0 = A.copy()
-        try:
-            Bm, piv = f2.rref(A)
-            K = f2.null_space(A)
-            r = f2.rank(A)
-            ok = bool(C.L.B(C.L.rref_form(Bm, list(piv)))) and C.native_same_kernel(A0, Bm) and r == len(piv) and np.array_equal(A, A0)
-            ok = ok and isinstance(K, np.ndarray) and K.ndim == 2 and K.shape == (n - r, n) and not ((A0.astype(np.int64) @ K.T.astype(np.int64)) % 2).any()
-            ok = ok and (K.shape[0] == 0 or len(C._rowspace_key(K.astype(np.int64))) == n - r)
-        except Exception as e:
-            ok = False
+        ok = contract_ok(A.copy())
         ctx.record(fam, PROVED if ok else REFUTED, {"shape": [m, n]} if t < 2 else None)
         if not ok:
-            ctx.violate(fam, f"bounded:{m}x{n}:{A0.tobytes().hex()[:24]}", f"random {m}x{n} matrix violates the f2_algebra contracts",
-                        {"args": [{"ndarray": A0.tolist(), "dtype": "int8"}]})
+            ctx.violate(fam, f"bounded:{m}x{n}:{A.tobytes().hex()[:24]}", f"random {m}x{n} matrix violates the f2_algebra contracts",
+                        {"args": [{"ndarray": A.tolist(), "dtype": "int8"}]})
+    # call histories: the same entries presented in another shape / dtype right after each other must not influence each other
+    fam2 = ctx.family("C18.bounded.call_history", BOUNDED, "native", "contracts hold for each call of a sequence of calls on matrices sharing their flattened entries")
+    fam2.exhaustive = False
+    for t in range(40 if ctx.quick else 300):
+        m, n = int(rng.integers(1, 9)), int(rng.integers(1, 9))
+        A = (rng.random((m, n)) < 0.5).astype(np.int8)
+        seq = [A, A.reshape(n, m).copy(), A.reshape(1, m * n).copy(), A.reshape(m * n, 1).copy(), A.copy()]
+        oks = [contract_ok(x.copy()) for x in seq]
+        ok = all(oks)
+        ctx.record(fam2, PROVED if ok else REFUTED, {"shapes": [list(x.shape) for x in seq]} if t < 2 else None)
+        if not ok:
+            bad = seq[oks.index(False)]
+            ctx.violate(fam2, f"history:{m}x{n}:{A.tobytes().hex()[:24]}",
+                        f"after calls on matrices with the same flattened entries, the {bad.shape[0]}x{bad.shape[1]} call violates the f2_algebra contracts (call history leaks)",
+                        {"args": [{"ndarray": bad.tolist(), "dtype": "int8"}], "sequence": [x.tolist() for x in seq]})
 
 
 def replay(data):
